@@ -791,7 +791,13 @@ class Synth:
         c = self.pick(self.v.stmts)
         if not c:
             return None
-        hi = self.rng.choice(["1", "2", "3", "4"])
+        his = ["1", "2", "3", "4", "0"]
+        # bounds that are (not) provably positive: size and index arguments with offsets
+        for a in self.ir.args:
+            if a.type.is_indexable():
+                nm = str(a.name)
+                his += [nm, f"{nm} - 1", f"{nm} + 1", f"{nm} / 2", f"{nm} % 2", f"{nm} - 2"]
+        hi = self.rng.choice(his)
         return [D_block(c[0], 1), L(self.name("a")), L(hi), L(self.rng.random() < 0.5)]
 
     def s_unroll_loop(self):
